@@ -69,7 +69,8 @@ Apis_C28 == {Api("Connect"), ApiT("Register", AB, 0, ""), ApiT("Subscribe", AB, 
 Apis_C28s == {IF a.tl = <<"xy">> THEN [a EXCEPT !.short = TRUE, !.stid = 30841] ELSE a : a \in Apis_C28}
 Gw_C28 == {Gw("CONNACK", "none"), GwRc("CONNACK", "none", 3), Gw("DISCONNECT", "none"), Gw("PINGRESP", "none"),
            GwRc("REGACK", "any", 2), GwAck("REGACK", "pend", 7), GwRc("SUBACK", "pend", 1), GwAck("PUBACK", "any", 7),
-           Gw("PUBREC", "pend"), Gw("ADVERTISE", "none"), GwPub(0, 0, 99, <<>>, "none")}
+           Gw("PUBREC", "pend"), Gw("ADVERTISE", "none"), GwPub(0, 0, 99, <<>>, "none"),
+           Gw("WILLTOPICREQ", "none"), Gw("WILLMSGREQ", "none")}
 
 ---- (* C33: keep-alive against sleep / disconnect / other calls *)
 Apis_C33 == {Api("Connect"), SleepApi(10), Api("Disconnect"), Api("Close"),
